@@ -24,7 +24,7 @@ from .choices import Choices
 
 PROP = "C03"
 BATCH = 60
-SHRINK_EVALS = 400
+SHRINK_EVALS = 700
 JOB_TIMEOUT_S = 1500
 VD_QUICK = ["float64", "int64", "bool", "datetime64[ns]"]
 VD_THOROUGH = VD_QUICK + ["float32", "timedelta64[ns]", "int32", "uint8"]
@@ -138,7 +138,15 @@ def run_one(scen: Choices, sched: Choices, cls, cfg):
     lay = gen.gen_layout(scen, ds)
     st = gen.gen_strategy(scen, ds)
     nops = 1 + scen.weighted([(3, 0), (2, 1), (1, 2)])
-    op_list = [ops.gen_op(scen, family, ds) for _ in range(nops)]
+    op_list = []
+    while len(op_list) < 3:
+        b_ = scen.begin()
+        if not scen.forced(1 if len(op_list) < nops else 0):  # "one more operation?"
+            break
+        op_list.append(ops.gen_op(scen, family, ds))
+        scen.end(b_)
+    if not op_list:
+        op_list = [ops.gen_op(Choices(replay=[]), family, ds)]
     fault = gen.gen_fault(scen) if cfg.get("fault_mode") else None
 
     rec = {"violations": [], "probes": [], "faults": [], "interleavings": [], "ticks": 0, "nontrivial": False, "n_pools": 0}
